@@ -22,7 +22,8 @@ def run(tier, R):
         cfgs += [("serial64", "release"), ("fiat64", "release"), ("fiat32", "release"), ("ifma", "release"), ("notables", "release")]
     FS = ctx.facts_for(R, cfgs)
     R.trust("rustc MIR + resolution; mirfacts exporter; mirlib expression trees / reachability")
-    R.assume("field arithmetic and sqrt_ratio_i are value-correct (C01); the decoder formulas themselves are RFC 9496's (value-level, not decided)")
+    R.assume("field arithmetic implements the ring operations and sqrt_ratio_i its contract (C01); C06.formula compares the decode / encode / MAP code with the RFC 9496 formulas as rational identities per sign scenario "
+             "(inverse square roots opaque); that those formulas define a prime-order group encoding is the RFC's / Decaf paper's theorem, not re-proved")
     for (cfg, mode), F in FS.items():
         check_cfg(F, R, cfg)
 
@@ -296,6 +297,17 @@ def check_cfg(F, R, cfg):
                     (R.viol if bad else R.ok)("C06.constructors", I(key), ("RistrettoPoint wrapped around unvalidated input: " + ", ".join(bad)) if bad else
                                               "operand built from Ristretto points / scalars / constants only", *((fv.loc(s[3]),) if bad else ()))
     R.floor("C06.constructors", I("RistrettoPoint aggregate sites"), n_sites, 14 if F.has_cfg("feature=precomputed-tables") else 11)
+
+    # ------------------------------------------------------------------ FORMULA domain: RFC 9496 decode / encode / MAP formulas and the coset equality, per sign scenario
+    import formula_rules as FR
+    ep = F.adts.get("curve25519_dalek::edwards::EdwardsPoint")
+    if ep:
+        fe_ty = ep["variants"][0]["fields"][0]["ty"]
+        nf = 0
+        for inst, f_, ok, msg in FR.ristretto(F, fe_ty):
+            nf += 1 if f_ else 0
+            (R.ok if ok else R.viol)("C06.formula", I(inst), str(msg), *(() if ok else (F.loc(f_) if f_ else "",)))
+        R.floor("C06.formula", I("ristretto255 formula scenarios decided"), nf, 14)
 
 
 def same(a, b):
